@@ -17,12 +17,12 @@ def c19_jobs(tier):
     q = tier == 'quick'
     return [job('io-asan', 'c19', 'asan', threads=1, shards=8, timeout=2400),
             job('io-plain', 'c19', 'plain', threads=1, shards=4, timeout=2400),
-            job('io-vg', 'c19', 'vg', threads=1, valgrind=True, args=['--stride=%d' % (6 if q else 2), '--child-timeout-ms=20000', '--bin-flips=0'], vgargs=['--show-mismatched-frees=no'], timeout=3600)]
+            job('io-vg', 'c19', 'vg', threads=1, shards=2 if q else 4, valgrind=True, args=['--stride=%d' % (6 if q else 4), '--child-timeout-ms=20000', '--bin-flips=0'], vgargs=['--show-mismatched-frees=no'], timeout=3600)]
 PROPS['C19'] = dict(
     level='exploration', jobs=c19_jobs,
     rule='round trips: seeded random sparse (0..100% dense, 1..40 rows/cols, sorted or shuffled rows) and dense data of types double/float/complex<double>/complex<float>/int/long long with values drawn from {random bit patterns, denormals, +-max, +-min, +-0, 17-digit decimals, small integers}; every row range for n <= 6, 9 ranges otherwise; symmetric (lower/upper) and foreign-format files written by the harness. Faults: every truncation point and every byte x 8 replacements of 9 small MatrixMarket files, every truncation point and every single-bit flip of header/ptr/col regions of 3 binary files, plus an explicit list of must-throw files. A case is non-trivial when the matrix stores at least one entry (round trips) / always (fault batches); distinct = distinct (sub-check, descriptor) hash.',
     exhaustive_note='mm_faults (all truncation points, all bytes x 8 replacements of 9 files), bin_faults (all truncation points, all single-bit flips of header+ptr+col of 3 files), all row ranges for n <= 6',
-    min_nontrivial=dict(quick=1600, thorough=15000),
+    min_nontrivial=dict(quick=1600, thorough=10000),
     require_obs=dict(quick=['truncation_points', 'bytes_corrupted', 'bits_flipped', 'memcheck_processes'], thorough=['truncation_points', 'bytes_corrupted', 'bits_flipped', 'memcheck_processes']),
     assumptions=COMMON_ASSUME + ['printing a double with 17 significant digits and reading it back with strtod is the identity (IEEE 754 / glibc), used only for the harness-written symmetric and foreign-format files'],
     technique='bitwise differential (write with the real writer, read with the real reader) + exhaustive single-fault enumeration on small files with a CRS well-formedness monitor, each faulted read isolated in a child process, under ASan/UBSan, plain -O2 and memcheck',
